@@ -15,6 +15,7 @@ import re
 
 from lib import vlib
 from lib.props import C12lit
+from lib.props import C12gram
 
 PROP = ["Properties/C12.v"]
 TRUSTED = [
@@ -98,6 +99,9 @@ def ntarget(t):
     return ("paren", "etc") if t == "etc" else norm(t)
 
 
+ALLOW_ETC = [True]     # '...' is only generated where the enclosing function is variadic (manual 3.4.11)
+
+
 def gen_atom(rng):
     k = rng.below(10)
     if k < 4:
@@ -107,7 +111,7 @@ def gen_atom(rng):
     if k == 6:
         return ("str", rng.below(6))
     if k == 7:
-        return rng.choice(["nil", "true", "false", "etc"])
+        return rng.choice(["nil", "true", "false", "etc"] if ALLOW_ETC[-1] else ["nil", "true", "false", "nil"])
     if k == 8:
         return ("lstr", rng.below(6))
     return ("name", rng.below(6))
@@ -274,9 +278,22 @@ def tok_text(tok, rng):
     return tok
 
 
-def render(toks, rng, layout=True):
+NL_STYLES = [None, "\n", "\r\n", "\r", "\n\r"]      # None = a different line end at every line break
+
+
+def render(toks, rng, layout=True, nl=None):
     """Returns (source text, [line of each token], line of EOF).  Lines counted the way the manual's
-    readers count them: each of \\n, \\r, \\r\\n, \\n\\r ends one line."""
+    readers count them: each of \\n, \\r, \\r\\n, \\n\\r ends one line.  nl: one line-end style for the whole
+    source (None: mixed)."""
+    if nl is not None:
+        global NL_KINDS
+        saved = NL_KINDS
+        NL_KINDS = ["\n"]
+        try:
+            src, lines, eofline = render(toks, rng, layout, None)
+        finally:
+            NL_KINDS = saved
+        return src.replace("\r\n", "\n").replace("\n", nl), lines, eofline
     out = []
     lines = []
     line = 1
@@ -337,7 +354,7 @@ def count_lines(s):
 def go_tok_to_model(t):
     """'name:v3@2' -> ('name:3', 2); returns (None, line) for tokens outside the model's vocabulary"""
     body, _, line = t.rpartition("@")
-    line = int(line)
+    line = int(line.split(".")[0])
     if body.startswith("num:"):
         try:
             return "num:%d" % int(body[4:], 0) if not re.match(r"^0\d", body[4:]) else "num:%d" % int(body[4:]), line
@@ -402,8 +419,10 @@ def run(tier, seed):
     check_errors(ck, gvh, oracle, tier, st)
     C12lit.check_literals(ck, gvh, oracle, tier, st)
     C12lit.check_renderings(ck, gvh, tier, st)
-    from lib.props import C12stat
+    from lib.props import C12stat, C12lex
     C12stat.check_statements(ck, gvh, oracle, tier, st)
+    C12lex.check_lexical(ck, gvh, tier, st)
+    C12lex.check_files(ck, gvh, tier, st)
     if st["go_ne_im"] and not st["go_ne_s"]:
         ck.violation("implementation no longer matches the Coq model Front/Parse.v (Go≈IM/front); no property-level failure found",
                      dict(st["first_im"], kind="Go!=IM", correspondence="Go≈IM/front", differences=st["go_ne_im"],
@@ -441,6 +460,15 @@ def lua_batched(gvh, lines, size=3000):
     for i in range(0, len(lines), size):
         out += vlib.run_lines_resilient(gvh, ["lua"], lines[i:i + size], per_case_timeout=30)
     return out
+
+
+def bad_message(msg, prefix_rx):
+    """A syntax error message must start with its position and must be a rendered message (no failed formatting)."""
+    if "%!" in msg or "PANIC" in msg:
+        return "formatting failure"
+    if not re.match(prefix_rx, msg):
+        return "no position prefix"
+    return None
 
 
 def known_for_source(ck, src):
@@ -519,7 +547,7 @@ def check_expressions(ck, gvh, oracle, tier, st):
     gl = []
     for i, c in enumerate(cases):
         layout = not (c["kind"].startswith("pair") and i % 2 == 0)
-        c["src"], c["lines"], c["eofline"] = render(c["toks"], rng, layout)
+        c["src"], c["lines"], c["eofline"] = render(c["toks"], rng, layout, NL_STYLES[i % len(NL_STYLES)] if layout else None)
         gl.append("e%d %s" % (i, hexsrc(c["src"])))
     gout = vlib.run_lines_resilient(gvh, ["exp"], gl, per_case_timeout=30)
     # pass 3: model parses what the Go scanner produced
@@ -621,8 +649,9 @@ def check_errors(ck, gvh, oracle, tier, st):
             how = "truncate"
         if not toks2:
             toks2 = [")"]
-        src, lines, eofline = render(toks2, rng, True)
-        cases.append({"toks": toks2, "src": src, "lines": lines, "eofline": eofline, "how": how})
+        nl = NL_STYLES[i % len(NL_STYLES)]
+        src, lines, eofline = render(toks2, rng, True, nl)
+        cases.append({"toks": toks2, "src": src, "lines": lines, "eofline": eofline, "how": how, "nl": nl})
     gout = vlib.run_lines_resilient(gvh, ["exp"], ["c%d %s" % (i, hexsrc(c["src"])) for i, c in enumerate(cases)], per_case_timeout=30)
     rc, pout, perr = vlib.run_lines(oracle, [], ["c%d P %s" % (i, " ".join(c["toks"])) for i, c in enumerate(cases)], timeout=1800)
     if rc != 0 or len(pout) != len(cases):
@@ -639,6 +668,7 @@ def check_errors(ck, gvh, oracle, tier, st):
         status = f[0].split(" ")[1]
         m = pout[i].split(" ")
         ck.count("d:" + c["how"])
+        ck.count("d:line-ends:" + {None: "mixed", "\n": "LF", "\r\n": "CRLF", "\r": "CR", "\n\r": "LFCR"}[c["nl"]])
         rep = {"engine": "front", "mode": "exp", "source_hex": hexsrc(c["src"]), "source": c["src"], "corruption": c["how"],
                "go": gout[i][:2000], "model": pout[i], "load": lout[i][:600]}
         if m[1] == "unsupported":
@@ -647,6 +677,25 @@ def check_errors(ck, gvh, oracle, tier, st):
         if kf is not None and kf["id"] == "C12-comment-bracket-newline":
             ck.count("d:skipped-known-comment-defect")
             continue
+        # S: the manual's grammar (C12gram) — acceptance and the offending token
+        sres = C12gram.recognise(c["toks"], "exp")
+        if (sres[0] == "ok") != (status == "ok") or (sres[0] == "err" and m[1] == "err" and not (sres[1] <= int(m[2]) <= sres[2])):
+            st["go_ne_s"] += 1
+            if st["go_ne_s"] <= 5:
+                rep["kind"] = "Go!=S"
+                rep["grammar"] = list(sres)
+                ck.violation("golua and the manual's grammar disagree on an expression (%s vs %s): %s"
+                             % (status, sres[0], c["src"][:80].replace("\n", "\\n")), rep)
+            continue
+        if status == "err":
+            gm = bytes.fromhex(f[2].split(" ")[2]).decode("latin-1") if len(f[2].split(" ")) > 2 and f[2].split(" ")[2] != "-" else ""
+            bad = bad_message(gm, r"^\d+:\d+: ")
+            if bad:
+                st["go_ne_s"] += 1
+                if st["go_ne_s"] <= 5:
+                    rep["kind"] = "Go!=S"
+                    ck.violation("ill-formed syntax error message (%s): %r" % (bad, gm[:100]), rep)
+                continue
         if m[1] == "ok":
             ck.count("d:still-valid")
             ck.case(c["src"], False)
@@ -672,7 +721,8 @@ def check_errors(ck, gvh, oracle, tier, st):
         # closes the wrapper: those cases are compared on ParseExp only
         in_load = not (idx < len(c["toks"]) and c["toks"][idx] == ")")
         ck.count("d:load-compared" if in_load else "d:load-skipped-rparen")
-        load_ok = (not in_load) or (lout[i].split(" ")[1] == "compile_error" and lline and int(lline.group(1)) == want_line)
+        load_ok = (not in_load) or (lout[i].split(" ")[1] == "compile_error" and lline and int(lline.group(1)) == want_line
+                                    and not bad_message(msg, r"^chunk:\d+:\d+: "))
         if gl != want_line or not load_ok:
             st["go_ne_s"] += 1
             if st["go_ne_s"] <= 5:
